@@ -19,6 +19,7 @@ import (
 
 func TestMain(m *testing.M) {
 	log.SetHandler(discard.Default)
+	ev.Watchdog(5 * time.Minute)
 	code := m.Run()
 	ev.Flush()
 	os.Exit(code)
@@ -90,6 +91,7 @@ type histOpts struct {
 func runHistories(t *testing.T, o histOpts) {
 	col := ev.Get(o.cfg.Prop, "sim", o.rule)
 	rapid.Check(t, func(rt *rapid.T) {
+		ev.Progress()
 		m := NewMachine(rt, o.cfg)
 		defer m.Close()
 		rt.Repeat(map[string]func(*rapid.T){
